@@ -1101,6 +1101,125 @@ def rename_back_locals(fn, qname, base_locals):
     return len(mapping)
 
 
+_BASE_EXPRS = {}
+
+
+def _base_exprs(qname):
+    """normalised texts of the boolean / comparison expressions of a function as confirmed"""
+    if qname in _BASE_EXPRS:
+        return _BASE_EXPRS[qname]
+    out = set()
+    src = _baseline_sources().get(qname)
+    if src:
+        try:
+            t = ast.parse(src)
+            canonical_tests(t)
+            for n in ast.walk(t):
+                if isinstance(n, (ast.Compare, ast.BoolOp)) or (isinstance(n, ast.UnaryOp) and isinstance(n.op, ast.Not)):
+                    out.add(" ".join(ast.unparse(n).split()))
+        except SyntaxError:
+            pass
+    _BASE_EXPRS[qname] = out
+    return out
+
+
+_SWAP = {ast.Lt: ast.Gt, ast.Gt: ast.Lt, ast.LtE: ast.GtE, ast.GtE: ast.LtE, ast.Eq: ast.Eq, ast.NotEq: ast.NotEq}
+_NEG = {ast.Lt: ast.GtE, ast.GtE: ast.Lt, ast.Gt: ast.LtE, ast.LtE: ast.Gt, ast.Eq: ast.NotEq, ast.NotEq: ast.Eq,
+        ast.In: ast.NotIn, ast.NotIn: ast.In, ast.Is: ast.IsNot, ast.IsNot: ast.Is}
+
+
+def restore_spelling(fn, qname):
+    """a condition that was only re-spelled - operands of a comparison swapped (`a > b` / `b < a`), a
+    negation pushed in or pulled out (De Morgan, `not a == b` / `a != b`), the operands of an and / or
+    in another order - is put back into the spelling the confirmed source of the same function uses,
+    when exactly that spelling occurs there.  Nothing else is touched."""
+    base = _base_exprs(qname)
+    if not base:
+        return 0
+    done = 0
+
+    def txt(n):
+        return " ".join(ast.unparse(n).split())
+
+    def variants(n):
+        """equivalent spellings of one expression (one step)"""
+        out = []
+        if isinstance(n, ast.Compare) and len(n.ops) == 1 and type(n.ops[0]) in _SWAP:
+            out.append(ast.Compare(left=n.comparators[0], ops=[_SWAP[type(n.ops[0])]()], comparators=[n.left]))
+        if isinstance(n, ast.Compare) and len(n.ops) == 1 and type(n.ops[0]) in _NEG:
+            out.append(ast.UnaryOp(op=ast.Not(), operand=ast.Compare(left=n.left, ops=[_NEG[type(n.ops[0])]()],
+                                                                     comparators=list(n.comparators))))
+            if type(n.ops[0]) in _SWAP:
+                out.append(ast.UnaryOp(op=ast.Not(), operand=ast.Compare(
+                    left=n.comparators[0], ops=[_SWAP[_NEG[type(n.ops[0])]]()], comparators=[n.left])))
+        if isinstance(n, ast.UnaryOp) and isinstance(n.op, ast.Not):
+            o = n.operand
+            if isinstance(o, ast.Compare) and len(o.ops) == 1 and type(o.ops[0]) in _NEG:
+                out.append(ast.Compare(left=o.left, ops=[_NEG[type(o.ops[0])]()], comparators=list(o.comparators)))
+                if _NEG[type(o.ops[0])] in _SWAP:
+                    out.append(ast.Compare(left=o.comparators[0], ops=[_SWAP[_NEG[type(o.ops[0])]]()], comparators=[o.left]))
+            if isinstance(o, ast.BoolOp):
+                dual = ast.Or() if isinstance(o.op, ast.And) else ast.And()
+                out.append(ast.BoolOp(op=dual, values=[_neg(v) for v in o.values]))
+        if isinstance(n, ast.BoolOp):
+            dual = ast.Or() if isinstance(n.op, ast.And) else ast.And()
+            out.append(ast.UnaryOp(op=ast.Not(), operand=ast.BoolOp(op=dual, values=[_neg(v) for v in n.values])))
+            # `not (a and b) or c` is `not a or not b or c`: a negated group of the dual kind is spliced in
+            flat, changed = [], False
+            for v in n.values:
+                if isinstance(v, ast.UnaryOp) and isinstance(v.op, ast.Not) and isinstance(v.operand, ast.BoolOp) \
+                        and type(v.operand.op) is type(dual):
+                    flat += [_neg(x) for x in v.operand.values]
+                    changed = True
+                else:
+                    flat.append(v)
+            if changed:
+                out.append(ast.BoolOp(op=n.op, values=flat))
+            if len(n.values) <= 4:
+                import itertools
+                for perm in itertools.permutations(n.values):
+                    if list(perm) != list(n.values):
+                        out.append(ast.BoolOp(op=n.op, values=list(perm)))
+        return out
+
+    def _neg(v):
+        if isinstance(v, ast.UnaryOp) and isinstance(v.op, ast.Not):
+            return v.operand
+        if isinstance(v, ast.Compare) and len(v.ops) == 1 and type(v.ops[0]) in _NEG:
+            return ast.Compare(left=v.left, ops=[_NEG[type(v.ops[0])]()], comparators=list(v.comparators))
+        return ast.UnaryOp(op=ast.Not(), operand=v)
+
+    class R(ast.NodeTransformer):
+        def _fix(self, node):
+            nonlocal done
+            self.generic_visit(node)
+            if txt(node) in base:
+                return node
+            for v in variants(node):
+                ast.fix_missing_locations(ast.copy_location(v, node))
+                try:
+                    if txt(v) in base:
+                        done += 1
+                        return ast.copy_location(v, node)
+                except Exception:
+                    continue
+            return node
+        visit_Compare = _fix
+        visit_BoolOp = _fix
+
+        def visit_UnaryOp(self, node):
+            if isinstance(node.op, ast.Not):
+                return self._fix(node)
+            return self.generic_visit(node)
+
+        def visit_FunctionDef(self, node):
+            return node if node is not fn else self.generic_visit(node)
+    R().generic_visit(fn)
+    if done:
+        ast.fix_missing_locations(fn)
+    return done
+
+
 def local_names(fn):
     return sorted({n.id for n in _own_walk(fn) if isinstance(n, ast.Name) and isinstance(n.ctx, ast.Store)})
 
@@ -1121,10 +1240,12 @@ def normalize_module(tree, module_name, sigs=None):
                     q_ = "%s:%s.%s" % (module_name, n_.name, c_.name)
                     if q_ in base:
                         rename_back_locals(c_, q_, base[q_])
+                        restore_spelling(c_, q_)
         elif isinstance(n_, ast.FunctionDef):
             q_ = "%s:%s" % (module_name, n_.name)
             if q_ in base:
                 rename_back_locals(n_, q_, base[q_])
+                restore_spelling(n_, q_)
     if sigs:
         positional_calls(tree, sigs)
     new_module_constants(tree, module_name, base)
